@@ -354,6 +354,14 @@ fn main() {
             let n = tap::probe_stream_capacity(chunked as usize, &|fd| set_sockbuf(fd, sockbuf));
             tap::cap(n * chunked);
         }
+        // Every worker leaves its first `select` before the scenario starts: that first call has no timeout, and under
+        // the harness only `wakeup` ends a virtual wait - a kernel event for a descriptor of a worker that nobody has
+        // woken yet would never be polled (a false HANG of the harness, not of may: the real epoll_wait returns).
+        // Spawning from this (non-worker) thread wakes the workers round-robin.
+        for _ in 0..envn("MAYV_WORKERS", 2) {
+            let h = unsafe { may::coroutine::spawn(|| {}) };
+            let _ = h.join();
+        }
         let mut jobs: Vec<(String, bool, Job)> = vec![];
         let pick = |sel: &str, r: u64| match sel {
             "co" => true,
